@@ -99,6 +99,15 @@ CHECKS = {
             'process with rapidcheck (value -> padded bytes -> value, exact consumption, no over-read on truncation).',
             'Trusts my encoder to produce spec-equivalent encodings (self-checked by decoding every variant back to the same '
             'module with the independent decoder).', 'DESIGN.md section 7 C08'),
+    'C20': ('F2 translator invariants (file-system snapshots)',
+            'PBT over generated directory trees and command lines: SHA-256/type/mode snapshot of the whole sandbox before and '
+            'after each translator run, invariant = only permitted files created/modified/deleted; choice-sequence shrinking',
+            'Generated-input search over output-path forms x option sets x pre-existing directory contents (matching names and '
+            'near misses as files, non-empty directories and symlinks, in every directory); the before/after snapshot difference '
+            'must lie inside the permitted set and, with -c, deletions must be exactly pattern-matching files of the output '
+            'directory. Exploration: names and trees are unbounded.',
+            'Does not generate a symlink/directory exactly at an output file name nor an empty directory with a matching name '
+            '(behaviour not specified by the property).', 'DESIGN.md section 7 C20'),
 }
 
 NOT_YET = {}
